@@ -1,5 +1,6 @@
 import SFV.Lemmas.CombDotSpec
 import SFV.Lemmas.CombCartMain
+import SFV.Lemmas.CombNested
 /-! # C02 — combinators emit exactly the right combinations, whatever the arrival order
 
 Property theorems only. The statements are about the LOOP-FAITHFUL executable model of
@@ -19,8 +20,9 @@ from `/repo` on every run. Helper lemmas: `SFV/Lemmas/Comb*.lean`.
   ports `0 … P-1`, of the received tokens with that key (`cartConfigs` = `itertools.product`), every member retagged
   `own tag[:-1] ++ [last component of every member]`. `WFCart depth P L S`: `depth ≥ 1`, `P ≥ 1`, no repeated
   event, ports below `P`, all tags of the same length `L`, per port distinct tags.
-* Nested combinators (outer dot product over an inner dot/cartesian product) are modelled (`runNested`) and
-  checked by correspondence and monitor only — no theorem yet (`nested_any_order` of DESIGN §4 is NOT proved). -/
+* Nested combinators (outer dot product over flat inner dot/cartesian products, `runNested`): only the OUTER level
+  is proved (`nested_any_order_partial`); the composition with the inner theorems is checked by correspondence
+  and monitor only (`nested_any_order` of DESIGN §4 is NOT proved in full). -/
 namespace SFV.C02
 open SFV SFV.Comb
 
@@ -137,5 +139,35 @@ theorem cart_any_order_full_false :
   have hl := this.length_eq
   rw [cart_counterexample.1, cart_counterexample.2] at hl
   exact absurd hl (by decide)
+
+/-- **Nested combinators, outer level (PARTIAL).** `runNested items es` is an outer dot product whose items are
+    ports or flat inner combinators. `derived items es []` is the stream of elements the outer combinator is
+    fed along the arrival sequence (tokens of plain ports; the schemas the inner combinators yield, filed under
+    `get_tag` of their tokens). If that stream is — up to order — a well-formed stream `D` of admissible
+    elements (items in range, per item a prefix antichain of rooted tags, every token of an element carrying
+    the element's tag), then the nested combinator emits, schema by schema up to the order of the entries,
+    exactly one combination `(κ, element of every item with an ancestor tag)` per complete tag `κ` of `D`.
+
+    What is MISSING for the full `nested_any_order`: (1) that the derived stream of a well-formed nested input
+    is well-formed and, up to the order of the entries inside the inner schemas, the same multiset for every
+    arrival order (follows informally from `dot_any_order` / `cart_any_order` for the inner combinator, needs a
+    parametricity lemma of the closed form); (2) absence of exceptions for the nested run (inner: by the flat
+    theorems; outer: `dotElems_any_order`). Both are covered by the correspondence check and the monitor only. -/
+theorem nested_any_order_partial (items : List Item) (es : List Ev) (D : List CF.Ev)
+    (hD : (derived items es []).Perm D) (hwf : CF.WF items.length D) (hok : ∀ x ∈ D, ElemOK x.2) :
+    ∃ N, EmRel (runNested items es).out N ∧ N.Perm (specE items.length D) := by
+  rw [runNested_out]
+  exact (dotElems_any_order D _ hwf hok hD).2
+
+/-- non-vacuity: `dot[cart₁[p0, p1], p2]` with two tokens on p0 and p1 and the broadcast token `0` on p2: the derived
+    stream (four inner schemas tagged `0.i.j`, one token) is well formed and admissible, four combinations are
+    specified and the model emits four schemas -/
+example :
+    let items := [Item.sub (.cart 1) [0, 1], Item.port 2]
+    let es : List Ev := [(0, ⟨[0, 0], 1⟩), (0, ⟨[0, 1], 2⟩), (1, ⟨[0, 0], 3⟩), (1, ⟨[0, 1], 4⟩), (2, ⟨[0], 5⟩)]
+    CF.WF items.length (derived items es []) ∧ (∀ x ∈ derived items es [], ElemOK x.2) ∧
+    (specE items.length (derived items es [])).length = 4 ∧ (runNested items es).out.length = 4 := by
+  unfold CF.WF ElemOK
+  decide +kernel
 
 end SFV.C02
